@@ -133,16 +133,47 @@ Proof. intros [|] [|] [|] [|] [|]; reflexivity. Qed.
 Print Assumptions C02_invalid_rejected.
 
 (* 5. Rate -> interval.  Full claim: |interval - 10^12/rate| <= 1 ps.
-      Proved part (_partial): the period is a NEAREST integer to the float64 value of
-      (1/f)*10^12 (so within 1/2 ps of it).  Missing: a bound on how far that float64 value is
-      from the real 10^12/f (two roundings, relative error <= 2^-52, i.e. below 1/2 ps for
-      periods < 2^51 ps); it needs a Flocq relative-error proof which is not done here.  Above
-      2^50 ps the claim is in fact false for rates that came from an interval (refuted below). *)
+      This statement (_partial, no guard, closed over the primitive floats only): the period is a
+      NEAREST integer to the float64 value of (1/f)*10^12 (so within 1/2 ps of it).
+      The missing part — how far that float64 value is from the real 10^12/f — is supplied by
+      C02_rate_interval_bound (5b below) under the guard period < 2^50 ps, which gives the full claim
+      there.  Above 2^50 ps the full claim is false for rates that came from an interval (refuted
+      below), so the guard cannot be dropped. *)
 Theorem C02_rate_interval_partial : forall f p,
   to_period f = TOk p ->
   exists m e, f2ze (PrimFloat.mul (PrimFloat.div one_f f) (freq_scale Ups)) = Some (m, e) /\ nearest p m e.
 Proof. exact to_period_nearest. Qed.
 Print Assumptions C02_rate_interval_partial.
+
+(* 5b. The full claim under an explicit guard on the INPUT rate: for every finite rate f with
+       10^12/2^50 < f <= 2^1000 Hz (i.e. a period below 2^50 ps; f2R is the exact real value of the float64,
+       read through the same f2ze as everywhere else) the stored period is within 1 ps of the REAL 10^12/f.
+       Proof (Proofs/RateBound.v): the two float64 operations (1/f, then *10^12) are two roundings to nearest
+       with relative error <= 2^-53 each (Flocq: div_equiv/mul_equiv, Bdiv_correct/Bmult_correct,
+       relative_error_N_FLT_ex), so the float64 product is within (3*2^-53)*2^50 = 3/8 ps of 10^12/f, and the
+       rounding to an integer adds at most 1/2 ps.  Above 2^50 ps the claim fails (C02_rate_roundtrip_refuted);
+       the proof itself would still go through up to about 2^51 ps.
+       Uses Coq's Reals and Flocq: see Print Assumptions (classical real-number axioms and the standard
+       library's primitive-float specification axioms; none declared by this development). *)
+From Coq Require Import Reals.
+From NT Require RateBound.
+Theorem C02_rate_interval_bound : forall f p,
+  ffinite f = true ->
+  (10 ^ 12 / 2 ^ 50 < RateBound.f2R f <= 2 ^ 1000)%R ->
+  to_period f = TOk p ->
+  (Rabs (IZR p - 10 ^ 12 / RateBound.f2R f) < 1)%R.
+Proof. exact RateBound.rate_interval_bound_pow. Qed.
+Print Assumptions C02_rate_interval_bound.
+(*     the guard is met by ordinary rates: 1000 Hz -> 10^9 ps, 3.3 Hz (0x1.a666666666666p+1) -> 303030303030 ps *)
+Example C02_rate_interval_bound_1000Hz :
+  ffinite 1000%float = true /\ (10 ^ 12 / 2 ^ 50 < RateBound.f2R 1000%float <= 2 ^ 1000)%R /\
+  to_period 1000%float = TOk 1000000000.
+Proof. exact RateBound.guard_example_1000. Qed.
+Example C02_rate_interval_bound_3p3Hz :
+  ffinite 0x1.a666666666666p+1%float = true /\
+  (10 ^ 12 / 2 ^ 50 < RateBound.f2R 0x1.a666666666666p+1%float <= 2 ^ 1000)%R /\
+  to_period 0x1.a666666666666p+1%float = TOk 303030303030.
+Proof. exact RateBound.guard_example_3p3. Qed.
 
 (* 6. REFUTED sub-claims; each witness is replayed on the implementation by the check. *)
 
